@@ -17,6 +17,17 @@ import scico.numpy as snp
 from scico.numpy import Array, BlockArray
 
 
+def _flatten(x: Union[Array, BlockArray]) -> Array:
+    """Return the entries of an array, or of all blocks of a block array, as a 1-D array.
+
+    The reductions :func:`mean`, :func:`var`, :func:`max` and :func:`min` of
+    :mod:`scico.numpy` do not act on a :class:`.BlockArray` as a whole.
+    """
+    if isinstance(x, BlockArray):
+        return snp.concatenate([blk.ravel() for blk in x])
+    return x.ravel()
+
+
 def mae(reference: Union[Array, BlockArray], comparison: Union[Array, BlockArray]) -> float:
     """Compute Mean Absolute Error (MAE) between two images.
 
@@ -28,7 +39,7 @@ def mae(reference: Union[Array, BlockArray], comparison: Union[Array, BlockArray
         MAE between `reference` and `comparison`.
     """
 
-    return snp.mean(snp.abs(reference - comparison).ravel())
+    return snp.mean(snp.abs(_flatten(reference - comparison)))
 
 
 def mse(reference: Union[Array, BlockArray], comparison: Union[Array, BlockArray]) -> float:
@@ -42,7 +53,7 @@ def mse(reference: Union[Array, BlockArray], comparison: Union[Array, BlockArray
         MSE between `reference` and `comparison`.
     """
 
-    return snp.mean(snp.abs(reference - comparison).ravel() ** 2)
+    return snp.mean(snp.abs(_flatten(reference - comparison)) ** 2)
 
 
 def snr(reference: Union[Array, BlockArray], comparison: Union[Array, BlockArray]) -> float:
@@ -56,7 +67,7 @@ def snr(reference: Union[Array, BlockArray], comparison: Union[Array, BlockArray
         SNR of `comparison` with respect to `reference`.
     """
 
-    dv = snp.var(reference)
+    dv = snp.var(_flatten(reference))
     with np.errstate(divide="ignore"):
         rt = dv / mse(reference, comparison)
     return 10.0 * snp.log10(rt)
@@ -86,7 +97,7 @@ def psnr(
     """
 
     if signal_range is None:
-        signal_range = snp.abs(snp.max(reference) - snp.min(reference))
+        signal_range = snp.abs(snp.max(_flatten(reference)) - snp.min(_flatten(reference)))
     with np.errstate(divide="ignore"):
         rt = signal_range**2 / mse(reference, comparison)
     return 10.0 * snp.log10(rt)
@@ -132,8 +143,8 @@ def bsnr(blurry: Union[Array, BlockArray], noisy: Union[Array, BlockArray]) -> f
         BSNR of `noisy` with respect to `blurry`.
     """
 
-    blrvar = snp.var(blurry)
-    nsevar = snp.var(noisy - blurry)
+    blrvar = snp.var(_flatten(blurry))
+    nsevar = snp.var(_flatten(noisy - blurry))
     with np.errstate(divide="ignore"):
         rt = blrvar / nsevar
     return 10.0 * snp.log10(rt)
